@@ -33,6 +33,9 @@ func runDbgLocks(o opts) error {
 	for _, e := range t.Order {
 		fmt.Printf("ORDER %s -> %s\n", e[0], e[1])
 	}
+	for _, l := range t.Leaks {
+		fmt.Printf("LEAK %s %s %s\n", l.Fn, l.Lock, l.Pos)
+	}
 	var esc []string
 	for f, l := range x.escapes {
 		esc = append(esc, f+" => "+l)
@@ -219,6 +222,12 @@ func runC14(o opts) error {
 		edesc = append(edesc, e[0]+" -> "+e[1])
 	}
 	emit(c14LocCase{Kind: "lock-order", Rows: edesc}, fmt.Sprintf("(OrderCase %s)", gList(edges)), true)
+	var leaks []string
+	for _, l := range t.Leaks {
+		leaks = append(leaks, fmt.Sprintf("%s still holds %s at %s", l.Fn, l.Lock, l.Pos))
+	}
+	emit(c14LocCase{Kind: "locks-held-at-return", Rows: leaks}, fmt.Sprintf("(LeakCase %d)", len(leaks)), true)
+	st.count("case:locks-held-at-return")
 	st.count("case:blocking-requests")
 	st.count("case:lock-order")
 	if err := c14Stress(o, st, emit); err != nil {
